@@ -217,6 +217,8 @@ func itemsToks(c *wire.Case, f *pipesup.File) {
 			c.Int(2).Int(pipesup.ETrunc)
 		case it.Kind == pipesup.KBlock:
 			c.Int(0).Int(int64(it.N))
+		case it.Kind == pipesup.KForeign: // the reader reports "unexpected fileblock": a read error
+			c.Int(2).Int(pipesup.EOther)
 		default:
 			c.Int(1).Int(pipesup.EOther)
 		}
